@@ -107,7 +107,7 @@ def generate(rng, seed, part):
     if dtype in ("float16",):
         dtype = "float32"
     cfg = {"ndim": ndim, "axes": axes, "weights": wkind, "exact": wkind != "float", "create": create,
-           "dtype": dtype, "prefill": 0}
+           "dtype": dtype, "prefill": 0, "vtype": rng.choice(["f64", "f64", "f64", "f32"])}
     if create == "class" and rng.random() < 0.4:
         for ax in axes:
             ax["start"] = "bins"
@@ -120,20 +120,24 @@ def generate(rng, seed, part):
     for _ in range(n):
         vals = [bounded(rng, ax["width"], ax["shift"] or 0.0, cap, ax.get("base_k", 0)) for ax in axes]
         entries.append([vals[0] if ndim == 1 else vals, build.draw_weight(rng, wkind)])
+    if cfg["vtype"] == "f32":
+        for e in entries:
+            e[0] = build.q32(e[0])  # representable in single precision: deliverable as float32 or float64
     if create == "facade" and rng.random() < 0.4 and n >= 2:
         cfg["prefill"] = rng.randint(1, max(1, n // 2))  # first entries go into the constructing call
     ops = []
     i = cfg["prefill"]
     conts = ["list", "ndarray", "tuple", "iter"] if ndim == 1 else ["list", "ndarray", "columns"]
     while i < n:
+        vt = "f32" if (cfg["vtype"] == "f32" and rng.random() < 0.6) else None
         if rng.random() < 0.5:
-            ops.append({"op": "fill", "i": i})
+            ops.append({"op": "fill", "i": i, "vt": vt})
             i += 1
         else:
             k = rng.randint(1, min(10, n - i))
             idx = list(range(i, i + k))
             rng.shuffle(idx)
-            op = {"op": "fill_n", "idx": idx, "cont": rng.choice(conts)}
+            op = {"op": "fill_n", "idx": idx, "cont": rng.choice(conts), "vt": vt}
             if rng.random() < 0.15:
                 op["nan_at"] = rng.randrange(k)
             ops.append(op)
@@ -403,6 +407,9 @@ def execute(plan, ctx):
                 continue
             v, w = entries[i]
             classify(ctx, vec(i), cfg)
+            if op.get("vt") == "f32":
+                v = np.float32(v) if ndim == 1 else np.asarray(v, dtype=np.float32)
+                ctx.probe("float32_value_delivery")
             ok, ret = attempt(h.fill, v) if w is None else attempt(h.fill, v, w)
             ctx.ev("src", "fill", i, repr(ret) if ok else exc_tag(ret))
             if not ok:
@@ -441,6 +448,9 @@ def execute(plan, ctx):
                     data = arr
             if weights is not None:
                 kw["weights"] = weights if cont == "ndarray" or not len(ws) else list(ws)
+            if op.get("vt") == "f32" and cont != "iter" and len(rows):
+                data = np.asarray(data, dtype=np.float32)
+                ctx.probe("float32_value_delivery")
             for i in idxs:
                 classify(ctx, vec(i), cfg)
             if not idxs:
